@@ -214,7 +214,7 @@ func (g *c15Guard) run(op string, f func() error) (err error) {
 
 func (c15Sim) Run(e *Env, ci interface{}) {
 	c := ci.(*C15Case)
-	if !c.Layout.Valid() || !c.File.Layout.Valid() || c.Clock0 < 946684800 || c.Clock0 > math.MaxInt32-400*86400-10 || len(c.File.Fills) > 12 || c.File.Rel == "" || c.File.Base != "src" {
+	if !c.Layout.Valid() || !c.File.Layout.Valid() || c.Clock0 < 946684800 || c.Clock0 > math.MaxUint32-3*400*86400 || len(c.File.Fills) > 12 || c.File.Rel == "" || c.File.Base != "src" {
 		e.Skip("invalid-case")
 		return
 	}
